@@ -26,6 +26,9 @@ func main() {
 		fmt.Fprintln(os.Stderr, "harness: unknown property", *prop)
 		os.Exit(2)
 	}
+	if p.LateOps != nil {
+		p.Ops = append(p.Ops, p.LateOps()...)
+	}
 	t0 := time.Now()
 	res := &Result{Property: p.ID, Tier: *tier, Seed: *seed, ByTag: map[string]int{}, ByOutcome: map[string]int{}, Mismatches: []Mismatch{}}
 	ctx := &Ctx{Prop: p, Tier: *tier, Seed: *seed, Rng: NewRng(*seed), Res: res, Driver: *driver}
